@@ -487,17 +487,20 @@ func oracle(t []string, out string) *hx.Violation {
 		for _, a := range o.adds {
 			watched[string(a)] = true
 		}
+		// the DPOS side filter (type 1) does not consult the bloom filter on the unconfirmed path (documented exception)
+		skip1 := o.typ == filter.FTDPOS && o.mode[0] == 'u'
+		skip2 := o.typ == filter.FTDPOS && o.mode[1] == 'u'
 		for _, in := range o.ins {
-			if watched[string(in.Bytes())] && f[0] != "true" {
-				return &hx.Violation{Kind: "tx-false-negative", Detail: "transaction spends an outpoint added with filteradd but MatchConfirmed returned false"}
+			if !skip1 && watched[string(opData(in.TxID[:], int(in.Index)))] && f[0] != "true" {
+				return &hx.Violation{Kind: "tx-false-negative", Detail: "transaction spends an outpoint added with filteradd but the match returned false"}
 			}
 		}
-		if o.k < len(o.outs) && watched[string(o.outs[o.k])] {
+		if !skip1 && !skip2 && o.k < len(o.outs) && watched[string(o.outs[o.k])] {
 			if f[0] != "true" {
-				return &hx.Violation{Kind: "tx-false-negative", Detail: fmt.Sprintf("filter type %d: transaction pays to a watched script hash but MatchConfirmed returned false", o.typ)}
+				return &hx.Violation{Kind: "tx-false-negative", Detail: fmt.Sprintf("filter type %d, mode %s: transaction pays to a watched script hash but the match returned false", o.typ, o.mode)}
 			}
 			if f[1] != "true" {
-				return &hx.Violation{Kind: "outpoint-not-added", Detail: fmt.Sprintf("filter type %d: output %d of a matched transaction pays to a watched script hash, but the transaction that spends it afterwards is not matched (the filter was not updated with the outpoint)", o.typ, o.k)}
+				return &hx.Violation{Kind: "outpoint-not-added", Detail: fmt.Sprintf("filter type %d, mode %s (c = confirmed, u = unconfirmed/relay path): output %d of a matched transaction pays to a watched script hash, but the transaction that spends it afterwards is not matched (the filter was not updated with the outpoint)", o.typ, o.mode, o.k)}
 			}
 		}
 	case "txf":
@@ -590,7 +593,7 @@ func oracle(t []string, out string) *hx.Violation {
 			if p.f.MatchesOutPoint(op) {
 				exp, why = true, "spent outpoint"
 			}
-			if len(m.Filter) > 0 && refContains(hx.UnHex(t[1]), m.HashFuncs, m.Tweak, op.Bytes()) {
+			if len(m.Filter) > 0 && refContains(hx.UnHex(t[1]), m.HashFuncs, m.Tweak, opData(op.TxID[:], int(op.Index))) {
 				exp, why = true, "spent outpoint (protocol reference)"
 			}
 		}
@@ -640,7 +643,7 @@ func bucket(t []string, out string) string {
 		}
 		return t[0] + "/ok"
 	case "txf2":
-		return "txf2/type" + t[1] + "/" + strings.ReplaceAll(out, " ", "-")
+		return "txf2/type" + t[1] + "/" + t[len(t)-1] + "/" + strings.ReplaceAll(out, " ", "-")
 	case "txf":
 		return fmt.Sprintf("txf/type%s/%s/%s", t[1], map[string]string{"1": "confirmed", "0": "unconfirmed"}[t[3]], cls)
 	case "reload":
@@ -1104,7 +1107,8 @@ type txf2Op struct {
 	outs     [][]byte
 	ins      []*ctypes.OutPoint
 	k        int
-	vref     bool // the first input of tx1 refers to a vote output recorded in the DPoS state
+	mode     string // cc / cu / uc / uu: tx1 and tx2 matched as confirmed or unconfirmed (relay / mempool path)
+	vref     bool   // the first input of tx1 refers to a vote output recorded in the DPoS state
 }
 
 func parseTxf2(t []string) *txf2Op {
@@ -1134,7 +1138,11 @@ func parseTxf2(t []string) *txf2Op {
 	lock2 := u32(t[i+1])
 	o.k = atoi(t[i+2])
 	o.vref = t[i+3] == "1"
-	i++
+	o.mode = t[i+4]
+	if len(o.mode) != 2 {
+		panic("harness: bad txf2 mode")
+	}
+	i += 2
 	if i+3 != len(t) {
 		panic("harness: trailing tokens in txf2 op")
 	}
@@ -1162,8 +1170,14 @@ func execTxf2(t []string) string {
 			return "err-add"
 		}
 	}
-	r1 := f.MatchConfirmed(o.tx1)
-	r2 := f.MatchConfirmed(o.tx2)
+	match := func(c byte, tx interfaces.Transaction) bool {
+		if c == 'c' {
+			return f.MatchConfirmed(tx)
+		}
+		return f.MatchUnconfirmed(tx)
+	}
+	r1 := match(o.mode[0], o.tx1)
+	r2 := match(o.mode[1], o.tx2)
 	return b2s(r1) + " " + b2s(r2)
 }
 
@@ -1309,7 +1323,7 @@ func genProtocol(g *hx.Gen) {
 		if r.Chance(40) {
 			ph := r.Bytes(21)
 			op := ctypes.NewOutPoint(uint256Of(r.Bytes(32)), uint16(r.Pick(256, 511, 65535, 7)))
-			s2 := walletFilter(r, [][]byte{ph, op.Bytes()})
+			s2 := walletFilter(r, [][]byte{ph, opData(op.TxID[:], int(op.Index))})
 			if r.Bool() {
 				emitTx(g, s2, nil, 2, uint32(r.U64()), [][]byte{r.Bytes(21), ph}, nil)
 			} else {
@@ -1432,7 +1446,7 @@ func genDispatch2(g *hx.Gen) {
 			adds = append(adds, phs[0])
 		}
 		if r.Chance(40) {
-			adds = append(adds, op.Bytes())
+			adds = append(adds, opData(op.TxID[:], int(op.Index)))
 		}
 		if r.Chance(10) {
 			adds = append(adds, r.Bytes(r.Pick(33, 100, 520)))
@@ -1471,7 +1485,7 @@ func genDispatch2(g *hx.Gen) {
 		for _, in := range ins {
 			fmt.Fprintf(&sb, " %s:%d", hx.Hex(in.TxID[:]), in.Index)
 		}
-		fmt.Fprintf(&sb, " %s %d %d %d", hx.Hex(h2[:]), lock2, k, r.Pick(0, 0, 1))
+		fmt.Fprintf(&sb, " %s %d %d %d %s", hx.Hex(h2[:]), lock2, k, r.Pick(0, 0, 1), []string{"cc", "cc", "uc", "uu", "cu"}[r.Intn(5)])
 		g.Emit("%s", sb.String())
 	}
 }
